@@ -195,6 +195,9 @@ def dispatchPure (toks : List String) : Option String :=
   | ["calccc", size, heads, sectors, efi] => do
     let (cc, pad) := Hybrid.calcCc (← size.toNat?) (← heads.toNat?) (← sectors.toNat?) (efi = "1")
     pure s!"{cc} {pad}"
+  | ["gptgeo", size, heads, sectors, extent, count, mac] => do
+    let g := Hybrid.gptGeo (← size.toNat?) (← heads.toNat?) (← sectors.toNat?) (← extent.toNat?) (← count.toNat?) (mac = "1")
+    pure s!"{g.primaryLba} {g.backupLba} {g.firstUsable} {g.lastUsable} {g.primaryEntries} {g.backupEntries} {g.isoFirst} {g.isoLast} {g.efiFirst} {g.efiLast}"
   | ["mbrchs", cc, heads, sectors, offset] => do
     let (eh, es, ec, psize) := Hybrid.endFields (← cc.toNat?) (← heads.toNat?) (← sectors.toNat?) (← offset.toNat?)
     let (bh, bs, bc) := Hybrid.startChs (← offset.toNat?) (← heads.toNat?) (← sectors.toNat?)
